@@ -123,6 +123,7 @@ def run(ck, a):
     except core.SXUnsupported as ex_:
       ck.harness_error('%s: %s' % (tag, ex_))
       continue
+    ck.log('traced', tag, 'guard folds', ctx.fold_stats, 'sqrt lemmas', ctx.lemma_stats)
     ck.traced('kinematics.forward+world_to_joint+inverse', cj)
     ck.extra.setdefault('sqrt_lemmas', 0)
     ck.extra['sqrt_lemmas'] += ctx.lemma_stats['queries']
